@@ -122,15 +122,14 @@ def _tests_truth_of(t, rt):
 
 
 def checkers(model):
-    key = id(model)
-    if key in _CACHE:
-        return _CACHE[key]
+    # cached on the model object itself (an id() key could be reused by a later model)
+    if "_checkers_cache" in model.__dict__:
+        return model.__dict__["_checkers_cache"]
     regs = marker.regions(model)
     out = {}
     for role in ("checker[sync]", "checker[async]"):
         out[role] = Checker(model, role, regs[role])
-    _CACHE.clear()
-    _CACHE[key] = out
+    model.__dict__["_checkers_cache"] = out
     return out
 
 
